@@ -96,6 +96,36 @@ pub fn special_values() -> Vec<(&'static str, [u8; 32])> {
         }
     }
     v.push(("neg-basepoint-s", neg));
+    // valid Ristretto encodings just below p = 2^255 - 19 and with other extreme top bytes (found by search from a
+    // fixed start, so they are the same on every run): canonical, must decode like any other point
+    {
+        let try_pt = |b: &[u8; 32]| curve25519_dalek::ristretto::CompressedRistretto(*b).decompress().is_some();
+        // top four bytes ff ff ff 7f: count down from p - 1 over even values
+        let mut cand = pm1;
+        let mut found = 0;
+        for _ in 0..4000 {
+            if cand[0] & 1 == 0 && try_pt(&cand) {
+                v.push((if found == 0 { "valid-near-p-1" } else { "valid-near-p-2" }, cand));
+                found += 1;
+                if found == 2 { break; }
+            }
+            // cand -= 1 (never borrows past byte 1 within this range)
+            if cand[0] == 0 { cand[0] = 0xff; cand[1] = cand[1].wrapping_sub(1); } else { cand[0] -= 1; }
+        }
+        // top byte 0x7f, everything else from a counter
+        let mut cand = [0u8; 32];
+        cand[31] = 0x7f; cand[30] = 0xff; cand[29] = 0xff; cand[28] = 0xff;
+        for k in 0..4000u32 {
+            cand[0] = (2 * k) as u8; cand[1] = ((2 * k) >> 8) as u8;
+            if try_pt(&cand) { v.push(("valid-top-7fffffff", cand)); break; }
+        }
+        let mut cand = [0u8; 32];
+        cand[31] = 0x40;
+        for k in 0..4000u32 {
+            cand[0] = (2 * k) as u8; cand[1] = ((2 * k) >> 8) as u8;
+            if try_pt(&cand) { v.push(("valid-top-40", cand)); break; }
+        }
+    }
     v.push(("three", le(3)));
     v.push(("four", le(4)));
     v.push(("2^252", {
@@ -548,6 +578,7 @@ pub fn identity_field_specials(o: &mut Out, instr: &str, wit: &str, fields: &[us
 
 pub fn gen_c01(o: &mut Out, tier: &str, seed: u64) {
     let mut r = Rng::new(seed, "c01");
+    crate::gen_bind::gen_sequences(o, &mut r, &["zero", "pubkey", "ctct", "ctcmt"], false);
     let reps = if tier == "thorough" { 25 } else { 2 };
     c01_zero(o, &mut r, reps);
     c01_pubkey(o, &mut r, reps * 2);
@@ -636,6 +667,22 @@ fn val_family(o: &mut Out, r: &mut Rng, n: usize, batched: bool) {
                 let mut t = te.clone();
                 t[nsc + i] = addp(&t[nsc + i], &rp);
                 o.op(&format!("{}.equal-keys.defect-key", name), &format!("mprove - {} {} {} {}", name, t.join(" "), nonces(r, 2), zeros(k)));
+            }
+        }
+    }
+    // a handle with a G-direction defect delta*G (lo half for the batched layouts) and the response z_x shifted *after* c
+    // is known by delta*c*omega(c) for omega in {1/c, 1, c, c^2, c^3, -1, -c, -c^2}: the defect's residual -c*delta*G in
+    // that handle's equation then cancels against the commitment equation under a verifier whose weight for that
+    // equation is omega(c) (a weight an adversary can compute before choosing the responses)
+    {
+        let delta = rand_nonzero(r);
+        let dg = delta * G;
+        let zx_off = ctx_len(&name) + 32 * (n + 1) + 32;
+        for i in 1..=n {
+            let mut t = toks.clone();
+            t[first_pt + i] = addp(&t[first_pt + i], &dg);
+            for rho in ["one", "c", "cc", "ccc", "cccc", "nc", "ncc", "nccc"] {
+                o.op(&format!("{}.handle-defect-ratio-forgery", name), &format!("mprove F:{}={}*{} {} {} {} {}", zx_off, hs(&delta), rho, name, t.join(" "), nonces(r, 2), zeros(k)));
             }
         }
     }
@@ -730,6 +777,7 @@ fn val_family(o: &mut Out, r: &mut Rng, n: usize, batched: bool) {
 
 pub fn gen_c02(o: &mut Out, tier: &str, seed: u64) {
     let mut r = Rng::new(seed, "c02");
+    crate::gen_bind::gen_sequences(o, &mut r, &["val2", "val3", "bval2", "bval3"], false);
     let th = tier == "thorough";
     // the permitted "no auditor" statements: last key and last handle(s) are the identity; any other special
     // encoding in those fields must be refused
@@ -765,6 +813,7 @@ pub fn gen_c02(o: &mut Out, tier: &str, seed: u64) {
 // ------------------------------------------------------------------ C03
 pub fn gen_c03(o: &mut Out, tier: &str, seed: u64) {
     let mut r = Rng::new(seed, "c03");
+    crate::gen_bind::gen_sequences(o, &mut r, &["cap"], false);
     let th = tier == "thorough";
     let reps = if th { 20 } else { 2 };
     let maxes: [u64; 7] = [0, 1, 3, 1000, 1 << 32, u64::MAX - 1, u64::MAX];
